@@ -116,7 +116,7 @@ def run_lineage(sh, ctx):
 				dists = np.array([d], dtype='f4')
 				res = gc.classify(genomes, dists)
 				rep = reportable_taxon(res.predicted_taxon)
-				ctx.case(hash((L, thrs, reps, d)) & 0xFFFFFFFFFFFFFFFF, nontrivial=any(x is not None for x in thrs),
+				ctx.case(hash((L, tuple(-1.0 if t is None else t for t in thrs), reps, d)) & 0xFFFFFFFFFFFFFFFF, nontrivial=any(x is not None for x in thrs),
 				         sample=dict(w0, d=d, predicted=idx(otaxa, res.predicted_taxon), next=idx(otaxa, res.next_taxon)) if (n % 211 == 0 and d == 0.5 and reps[0]) else None)
 				gp = check_result(ctx, res, rep, model, otaxa, [0], dists, genomes, dict(w0, d=d))
 				# monotonicity on the real outputs: increasing d keeps or coarsens
